@@ -330,6 +330,7 @@ func analyzeMapLoop(p *Prog, own *Own, l *mapLoop) (problems, notes []string) {
 		case "argmin":
 			// every assignment must be guarded by a comparison that reads the current best value
 			guarded := false
+			ties := ""
 			for b := range l.blocks {
 				if len(b.Instrs) == 0 {
 					continue
@@ -339,11 +340,16 @@ func analyzeMapLoop(p *Prog, own *Own, l *mapLoop) (problems, notes []string) {
 						rs := own.roots(fn, ifi.Cond, modeDeriv)
 						if _, ok := rs[loopRoot]; ok {
 							guarded = true
+							if why := condOrdersAll(p, fn, ifi.Cond); why != "" {
+								ties = why
+							}
 						}
 					}
 				}
 			}
-			if guarded {
+			if guarded && ties != "" {
+				problems = append(problems, fmt.Sprintf("variable %q is selected by %s: among elements that agree on it the one visited first wins", name, ties))
+			} else if guarded {
 				notes = append(notes, fmt.Sprintf("%s: selected by comparison with the current best (arg-min)", name))
 			} else {
 				problems = append(problems, fmt.Sprintf("variable %q is assigned the iteration element without comparing it to the current value: an arbitrary element is chosen", name))
